@@ -41,6 +41,12 @@ def gt (a : NInf) (x : Int) : Bool := match a with | none => false | some v => d
 /-- `if x > a { a = x }` -/
 def maxWith (a : NInf) (x : Int) : NInf :=
   match a with | none => some x | some v => if x > v then some x else some v
+/-- one update of a running gap maximum: `x += gapextend; if i > 0 { fnew = v + gapopen; if fnew > x { x = fnew } }`
+(`v = none` when the patched code skips the inner block) -/
+def step (x : NInf) (gext : Int) (v : Option Int) (gopen : Int) : NInf :=
+  match v with
+  | some u => (x.add gext).maxWith (u + gopen)
+  | none => x.add gext
 end NInf
 
 /-- the configuration part of `pwaligner`; scores in units of `1/den` -/
@@ -117,17 +123,13 @@ code), `upv` = `matrix[i-1][j]` and `leftv` = `matrix[i][j-1]` when the patched 
 (`i > 0`, `j > 0`; the shipped interior loop always does). -/
 def cellStep (gopen gext mt diag : Int) (upv leftv : Option Int) (maxa bx : NInf) : StepOut :=
   let m0 := diag + mt
-  let maxa1 := maxa.add gext
-  let maxa2 := match upv with
-    | some u => maxa1.maxWith (u + gopen)
-    | none => maxa1
-  let m1 : Int × Dir := if maxa2.gt m0 then (maxa2.getD 0, Dir.up) else (m0, Dir.diag)
-  let bx1 := bx.add gext
-  let bx2 := match leftv with
-    | some l => bx1.maxWith (l + gopen)
-    | none => bx1
-  let m2 : Int × Dir := if bx2.gt m1.1 then (bx2.getD 0, Dir.left) else m1
-  { val := if m2.1 < 0 then 0 else m2.1, tr := m2.2, maxa := maxa2, bx := bx2, mscore := m2.1 }
+  let maxa2 := maxa.step gext upv gopen
+  let m1 : Int := if maxa2.gt m0 then maxa2.getD 0 else m0
+  let t1 : Dir := if maxa2.gt m0 then Dir.up else Dir.diag
+  let bx2 := bx.step gext leftv gopen
+  let m2 : Int := if bx2.gt m1 then bx2.getD 0 else m1
+  let t2 : Dir := if bx2.gt m1 then Dir.left else t1
+  { val := if m2 < 0 then 0 else m2, tr := t2, maxa := maxa2, bx := bx2, mscore := m2 }
 
 /-- the cells `j, j+1, …` of row `i`; each list element carries the residue of `seq2`, the value
 above and `maxa[j]` -/
